@@ -81,3 +81,78 @@ def source_tie(chk, cases, outs):
                     "disagreeing_cases": len(bad),
                     "correspondence": "tie:C02:py2coq+MiniPy.Interp+MiniTorch:_string_matching(return_mistakes)",
                     "theorems_at_stake": SRC_THEOREMS}, no_failing_input=True)
+
+
+# ---- second tie: minimum_error_rate_loss (unit C02BSrc, PV.C02.SrcRunB / TieB*) ----------------------------------------
+IMPORTS_SRCB = "From PV Require Import C01.Obs C01.Model C02.Model.\nFrom PV Require C02.SrcRunB.\n"
+SRCB_TIE_SAMPLE = 1500
+SRCB_THEOREMS = ["c02_source_mer_loss_is_model", "c02_source_mer_loss_blocks_is_model", "c02_source_mer_loss_too_few_samples",
+                 "c02_source_mer_loss_entries"]
+
+
+def _eligibleB(c02, case, out):
+    """minimum_error_rate_loss calls whose costs are exact rationals k/scale in float32 (dyadic scale, as for error_rate)
+    and whose observation the correspondence itself accepts as an observation (a loss of the expected shape, or the
+    RuntimeError of a malformed call)"""
+    if case["api"] != "mer" or case.get("slow") or case.get("long"):
+        return False
+    if c02._obs_mer(case, out) is None:
+        return False
+    sc = c02._scale(c02._eff(case))
+    N, M, R, H = c02._mdims(case)
+    return sc & (sc - 1) == 0 and R <= 12 and H <= 12 and N * M <= 24
+
+
+def src_termB(c02, case, out):
+    """SrcRunB.src_mer_check: the arguments of Model.check_mer with the denominator of the costs after the configuration"""
+    from vlib import cq
+    e = c02._eff(case)
+    args = c02._mer_args(case)
+    cfg = base._cfg(e)
+    assert args.startswith(cfg + " ")
+    return f"SrcRunB.src_mer_check {cfg} {cz(c02._scale(e))} {args[len(cfg) + 1:]} {cq(c02.TOL)} {c02._obs_mer(case, out)}"
+
+
+def source_tieB(chk, cases, outs):
+    from vlib import CoqError
+    from props import c02
+    idx = [i for i, (c, o) in enumerate(zip(cases, outs)) if _eligibleB(c02, c, o)]
+    if len(idx) > SRCB_TIE_SAMPLE:
+        step = len(idx) / SRCB_TIE_SAMPLE
+        idx = [idx[int(j * step)] for j in range(SRCB_TIE_SAMPLE)]
+    chk.extra["source_tie_B"] = {
+        "unit": "C02BSrc (harness/py2coq/units/C02BSrc.json)", "coq": "PV.C02.SrcRunB / PV.C02.TieB*",
+        "what": "minimum_error_rate_loss (blocks mer_pre; mer_tail and the whole body), calling the translated error_rate / "
+                "_string_matching of unit C02Src; softmax(log_probs, 1) is an oracle (the weights of the correspondence)",
+        "theorems": SRCB_THEOREMS}
+    if not idx:
+        chk.extra["source_tie_B_run"] = {"cases": 0, "disagreements": 0}
+        return
+    t0 = time.time()
+    try:
+        res = coq_eval_bools(chk.workdir, IMPORTS_SRCB, [src_termB(c02, cases[i], outs[i]) for i in idx], shard=24, tag="srcB")
+    except CoqError as e:
+        chk.extra["source_tie_B_run"] = "not evaluated: " + str(e)[-400:]
+        return
+    bad = [idx[j] for j, ok in enumerate(res) if not ok]
+    effs = {i: c02._eff(cases[i]) for i in idx}
+    chk.extra["source_tie_B_run"] = {
+        "cases": len(idx), "disagreements": len(bad), "wall_s": round(time.time() - t0, 1),
+        "ref_3d": sum(1 for i in idx if cases[i]["ref3"]), "batch_first": sum(1 for i in idx if effs[i]["batch_first"]),
+        "sub_avg": sum(1 for i in idx if effs[i]["sub_avg"]),
+        "reduction": {r: sum(1 for i in idx if effs[i]["reduction"] == r) for r in ("mean", "sum", "none")},
+        "too_few_samples(RuntimeError)": sum(1 for i in idx if "exc" in outs[i]),
+        "with_eos": sum(1 for i in idx if cases[i]["eos"] is not None), "norm": sum(1 for i in idx if effs[i]["norm"]),
+        "uniform_costs": sum(1 for i in idx if len(set(effs[i]["costs"])) == 1),
+        "max_NM": max(c02._mdims(cases[i])[0] * c02._mdims(cases[i])[1] for i in idx)}
+    chk.count("source_tie_B_cases", len(idx))
+    if bad:
+        i = bad[0]
+        chk.report({"case": cases[i], "impl": outs[i],
+                    "what": "the Python source of minimum_error_rate_loss as translated to MiniPy and interpreted in Coq "
+                            "(PV.C02.SrcRunB.src_mer_check, torch calls = PV.MiniTorch.OpsC02B + those of the first C02 tie, "
+                            "softmax = the correspondence's weights) does not reproduce the implementation's output: translator / "
+                            "interpreter / extB / MiniTorch no longer describe the code",
+                    "disagreeing_cases": len(bad),
+                    "correspondence": "tie:C02:py2coq+MiniPy.Interp+MiniTorch:minimum_error_rate_loss",
+                    "theorems_at_stake": SRCB_THEOREMS}, no_failing_input=True)
